@@ -197,6 +197,12 @@ pub fn shift_event(rng: &mut StdRng) -> Value {
         // extreme magnitudes only where the observer's membership test is exact (scalar cones)
         let e = if huge && matches!(c, ConeSpec::Nonneg(_) | ConeSpec::Zero(_)) { gen::unif(rng, 10.0, 21.0) } else { gen::unif(rng, -2.0, 6.0) };
         for i in off..off + c.numel() { s[i] = gen::normal(rng) * 10f64.powf(e); z[i] = gen::normal(rng) * 10f64.powf(e); }
+        // a second-order cone with an exactly zero tail and a head on either side of zero (the margin is the head itself)
+        if matches!(c, ConeSpec::Soc(_)) && rng.gen::<f64>() < 0.15 {
+            for i in off + 1..off + c.numel() { s[i] = 0.0; z[i] = 0.0; }
+            s[off] = [-5.0, 0.0, -1e-3, 3.0][rng.gen_range(0..4)];
+            z[off] = [-5.0, 0.0, -1e-3, 3.0][rng.gen_range(0..4)];
+        }
         // a second-order cone whose head is hugely negative next to an ordinary tail: the shift that repairs it is only
         // accurate to a few units at that magnitude, more than the margin it aims at
         if huge && matches!(c, ConeSpec::Soc(_)) && rng.gen::<f64>() < 0.5 {
